@@ -1,6 +1,10 @@
 """C09 -- kdq-tree detectors alarm exactly when leaf divergence exceeds a bootstrap bound."""
 from .common import A_COMMON
-TARGETS = []
+KS = "menelaus.data_drift.kdq_tree:KdqTreeStreaming"
+TARGETS = [("fn", KS + ".update"), ("fn", KS + ".reset")]
 LEVEL = "exploration"
 LEVEL_TEXT = ('Bounded: KdqTreeBatch / KdqTreeStreaming against the rule recomputed from public outputs with the bootstrap re-drawn under the same seed (critical value, per-batch replacement of test counts, window / silence / persistence schedule, reference replacement). Claimed as exploration.')
-ASSUMPTIONS = A_COMMON + []
+ASSUMPTIONS = A_COMMON + [
+    "ASSUMED (unverified) contract: KdqTreeDetector._inner_set_reference (builds the tree, draws the bootstrap critical "
+    "value, resets the epoch); KDQTreePartitioner.fill / kl_distance are opaque in the skeleton proof (their claims are C08)",
+]
